@@ -1,4 +1,159 @@
-//! Engine K: crash points of a build (C08).
-use crate::util::*;
+//! Engine K (C08): every crash point of a build. The production binary runs under strace with
+//! SIGKILL injected at the k-th file-system call (k = 1, 2, ... until a run completes); every tree
+//! left behind is rebuilt and must equal the result of a build from a pristine tree.
+#![allow(dead_code)]
 
-pub fn run_into(_rep: &Report) {}
+use crate::hist::*;
+use crate::util::*;
+use serde_json::json;
+use std::collections::BTreeMap;
+use txtpp::Mode;
+
+const KMAX: usize = 160;
+
+fn strace_works() -> bool {
+    std::process::Command::new("strace")
+        .args(["-f", "-qq", "-o", "/dev/null", "-e", "trace=openat", "-e", "inject=openat:signal=SIGKILL:when=9999", "true"])
+        .status()
+        .map(|s| s.success())
+        .unwrap_or(false)
+}
+
+pub fn run_into(rep: &Report) {
+    if !strace_works() {
+        rep.set("crash_points", json!("unavailable: strace could not trace a child process here; C08 rests on engine H's pre-state enumeration only"));
+        rep.note_cap("crash-point enumeration unavailable (ptrace not permitted)");
+        return;
+    }
+    // (project, start state, --needed)
+    let mut cases = vec![];
+    for pname in ["solo", "chain", "nested"] {
+        for start in ["pristine", "stale-after-edit"] {
+            for needed in [false, true] {
+                cases.push((pname, start, needed));
+            }
+        }
+    }
+    let total = cases.len() * KMAX;
+    sharded_dyn(rep, par_threads() * 2, |_w, _n, next, rep| {
+        let b = Bench::new();
+        let mut fc = FreshCache::new();
+        let mut done_k: BTreeMap<usize, usize> = BTreeMap::new();
+        loop {
+            let idx = next();
+            if idx >= total {
+                break;
+            }
+            if rep.over_cap() {
+                rep.note_cap("wall-clock cap in the crash-point enumeration");
+                break;
+            }
+            let (ci, k) = (idx / KMAX, idx % KMAX + 1);
+            if done_k.get(&ci).map(|&d| k > d).unwrap_or(false) {
+                continue;
+            }
+            let (pname, start, needed) = cases[ci];
+            let p = project(pname);
+            let n = p.sources.len();
+            let (ver_old, ver_new): (Vec<usize>, Vec<usize>) = (vec![0; n], if start == "pristine" { vec![0; n] } else { vec![1; n] });
+            let fresh_new = fc.get(&b, &p, &ver_new, true, 0);
+            let fresh_old = fc.get(&b, &p, &ver_old, true, 0);
+            let mut t = p.pristine(&ver_new);
+            if start != "pristine" {
+                for (g, bytes) in &fresh_old.files {
+                    tfile(&mut t, g, bytes);
+                }
+            }
+            b.materialize(&t);
+            let inj = format!("inject=openat,write,unlink,unlinkat,rename:signal=SIGKILL:when={k}");
+            let mut c = std::process::Command::new("strace");
+            c.args(["-f", "-qq", "-o", "/dev/null", "-e", "trace=openat,write,unlink,unlinkat,rename", "-e", &inj]);
+            c.arg(production_cli());
+            if needed {
+                c.arg("-N");
+            }
+            c.args(["-q", "-j1", "-r", "."]);
+            c.current_dir(b.base()).env_remove("TXTPP_FILE").stdout(std::process::Stdio::null()).stderr(std::process::Stdio::null());
+            let st = c.status().expect("strace");
+            use std::os::unix::process::ExitStatusExt;
+            let killed = st.signal().is_some() || st.code() == Some(137);
+            rep.tv(1);
+            rep.tr(1);
+            if killed {
+                rep.add("builds_killed_at_a_crash_point", 1);
+            } else {
+                let e = done_k.entry(ci).or_insert(k);
+                *e = (*e).min(k);
+                rep.add("builds_that_completed", 1);
+            }
+            let left = state_of(&snapshot(&b.base()));
+            // (i) is the state inside engine H's enumerated family? absent | prefix of the new content | the old content
+            for g in p.all_generated() {
+                if let Some(Node::File(bytes)) = left.get(&g) {
+                    let is_prefix = fresh_new.files.get(&g).map(|f| f.starts_with(bytes)).unwrap_or(false);
+                    let is_old = fresh_old.files.get(&g) == Some(bytes);
+                    if !is_prefix && !is_old {
+                        rep.add("crash_states_outside_the_enumerated_prestate_family", 1);
+                    } else if is_prefix && fresh_new.files.get(&g).map(|f| f.len()) != Some(bytes.len()) {
+                        rep.add("crash_states_with_a_partial_file", 1);
+                    }
+                }
+            }
+            // (ii) building again repairs everything
+            let o = b.run(&p, &left, &Mode::Build, &p.sels[0], true);
+            rep.tv(1);
+            let mut bad = vec![];
+            if o.abnormal.is_some() || o.ok != fresh_new.ok {
+                bad.push(format!("rebuild verdict ok={} ({}) but a pristine build ok={}", o.ok, o.detail, fresh_new.ok));
+            } else {
+                for g in p.all_generated() {
+                    let got = match o.after.get(&g) {
+                        Some(Meta { node: Node::File(x), .. }) => Some(x),
+                        _ => None,
+                    };
+                    if got != fresh_new.files.get(&g) {
+                        bad.push(format!("{g} is {:?}, a pristine build writes {:?}", got.map(|x| show(x)), fresh_new.files.get(&g).map(|x| show(x))));
+                    }
+                }
+            }
+            if !bad.is_empty() {
+                rep.violate(
+                    "not-repaired-after-crash",
+                    format!("[{pname}] start={start} needed={needed}: build killed at file-system call #{k} per thread, then built again :: {}", bad.join("; ")),
+                    json!({"engine": "K", "project": pname, "start": start, "needed": needed, "k": k, "left_behind": tree_json(&left)}),
+                );
+            }
+            if k == 6 && ci == 2 {
+                rep.sample(json!({"crash_point": {"project": pname, "start": start, "needed": needed, "killed_at_call": k}, "left_behind": left.iter().filter(|(g, _)| p.all_generated().contains(*g)).map(|(g, n)| (g.clone(), match n { Node::File(b) => show(b), _ => "?".into() })).collect::<BTreeMap<_, _>>()}));
+            }
+        }
+    });
+    rep.set("crash_point_cases", json!(cases.iter().map(|c| format!("{}/{}/needed={}", c.0, c.1, c.2)).collect::<Vec<_>>()));
+    if rep.get("builds_killed_at_a_crash_point") == 0 {
+        rep.machinery("crash-point enumeration killed no build".into());
+    }
+}
+
+pub fn replay(v: &serde_json::Value) -> bool {
+    let p = project(v["project"].as_str().unwrap_or("solo"));
+    let left = tree_from_json(&v["left_behind"]);
+    let b = Bench::new();
+    let mut fc = FreshCache::new();
+    let n = p.sources.len();
+    let ver = if v["start"].as_str() == Some("pristine") { vec![0; n] } else { vec![1; n] };
+    let fresh = fc.get(&b, &p, &ver, true, 0);
+    let o = b.run(&p, &left, &Mode::Build, &p.sels[0], true);
+    println!("replay: rebuild of the tree left behind by the killed build: ok={} {}", o.ok, o.detail);
+    let mut bad = o.ok != fresh.ok;
+    for g in p.all_generated() {
+        let got = match o.after.get(&g) {
+            Some(Meta { node: Node::File(x), .. }) => Some(x),
+            _ => None,
+        };
+        if got != fresh.files.get(&g) {
+            println!("  {g}: {:?} vs pristine build {:?}", got.map(|x| show(x)), fresh.files.get(&g).map(|x| show(x)));
+            bad = true;
+        }
+    }
+    bad
+}
